@@ -68,7 +68,22 @@ def run_check(pid, tier, seed, jobs, budget_s, runs_override=None):
     from concurrent.futures import ProcessPoolExecutor
     import multiprocessing as mp
     t0 = _t.perf_counter()
-    seams.check_seams()
+    # in a child: this process is the image every run is forked from and must
+    # stay pristine (the probe itself calls run_script with default arguments)
+    child = os.fork()
+    if child == 0:
+        code = 0
+        try:
+            seams.check_seams()
+        except HarnessError as e:
+            print('HARNESS-ERROR ' + str(e), flush=True)
+            code = 3
+        except BaseException as e:      # noqa
+            print('HARNESS-ERROR seam check raised %r' % (e,), flush=True)
+            code = 3
+        os._exit(code)
+    if os.waitpid(child, 0)[1] != 0:
+        sys.exit(3)
     mod = core.load(pid)
     known, fixed = core.load_known()
     known = [k for k in known if k.get('property') == pid]
@@ -228,7 +243,9 @@ def run_check(pid, tier, seed, jobs, budget_s, runs_override=None):
         len(agg['schedules']), wall))
     for n in notes:
         print('note: ' + n)
-    if det['mismatches']:
+    if det['mismatches'] and status == 0:
+        # (with a violation in hand the violation is the news: a library that
+        # leaks state between calls also makes traces history dependent)
         harness_error('determinism self-check mismatch at idx %s' % det.get('first'))
     for k in known:
         print('KNOWN-FINDING: property=%s %s (sig=%s; reproduced %d times this run)' % (
